@@ -1,7 +1,13 @@
 """Malformed-argument stream for C20: documented options with syntactically well-formed but arbitrary
 values (zero, negative, huge, tiny, non-finite, wrong arity, unknown tags, contradictory options,
 degenerate and duplicate geometry)."""
-import math, re
+import math, re, os, tempfile, atexit, shutil
+
+# output files of --output-basic-input / --output-cmdline: a writable place, a directory that does not exist,
+# and a directory given as the file name (scratch directory outside /repo and /verif, removed at exit)
+OUTDIR = tempfile.mkdtemp(prefix='pmn_fuzz_')
+atexit.register(shutil.rmtree, OUTDIR, True)
+OUTPATHS = [os.path.join(OUTDIR, 'o.txt'), os.path.join(OUTDIR, 'o.txt'), os.path.join(OUTDIR, 'no', 'such', 'dir', 'o.txt'), OUTDIR]
 
 SPECIAL = ['0', '-1', '1e308', '1e-308', 'inf', '-inf', 'nan', '1e-30', '-0.0', '1e30', '0.5', '3']
 INTS = ['0', '-1', '1', '2', '-5', '7']
@@ -24,6 +30,13 @@ BASES = [
     ['-f', '7', '-w', '4,0,0,0,0,0,10,.01', '--excitation-pulse=2', '--rlc-load=1,1e-6,1e-10', '--attach-load=1,1',
      '--trap-load=1,1e-5,1e-11', '--attach-load=2,2', '--laplace-load-a=0,1e-9', '--laplace-load-b=1', '--attach-load=3,all'],
     ['-f', '7', '-w', '4,0,0,0,0,0,10,.01', '--excitation-pulse=2', '--theta=0,10,3', '--phi=0,90,2'],
+    # every load kind side by side, as needed by the writers of the two output files
+    ['-f', '7', '-w', '6,0,0,0,0,0,10,.01', '--excitation-pulse=2', '--load=50+5j', '--attach-load=1,1', '--laplace-load-a=1,2e-6',
+     '--laplace-load-b=1,1e-6', '--attach-load=2,4', '--rlc-load=5,1e-6,', '--attach-load=3,5'],
+    ['-f', '7', '-w', '4,0,0,0,0,0,10,.01', '-w', '4,0,0,10,5,0,10,.01', '--excitation-pulse=2', '--insulation-load=0.02,2',
+     '--insulation-load=0.03,3,2', '--skin-effect-conductivity=5e7,1'],
+    ['-f', '7', '-w', '4,0,0,0,0,0,10,.01', '--excitation-pulse=2', '--laplace-load-a=1,2e-6,3e-12,4e-18,5e-24',
+     '--laplace-load-b=1,1e-6,1e-12,1e-18,1e-24', '--attach-load=1,1', '--mininec-version=9'],
 ]
 
 EXTRA = ['--frequency-increment=%s', '--frequency-steps=%s', '--ff-distance=%s', '--ff-power=%s', '--nf-power=%s',
@@ -35,7 +48,11 @@ EXTRA = ['--frequency-increment=%s', '--frequency-steps=%s', '--ff-distance=%s',
          '--geo-rotate=%s,%s,%s,%s', '--geo-translate=%s,%s,%s,%s', '-w %s,%s,%s,%s,%s,%s,%s,%s', '-a %s,%s,%s,%s,%s',
          '-H %s,%s,%s,%s,%s,%s', '--laplace-load-a=%s,%s', '--laplace-load-b=%s,%s', '--mininec-version=%s',
          '--attach-load=%s,all,%s', '--attach-load=%s,all', '--attach-load=%s,%s,%s', '--excitation-pulse=%s,%s',
-         '--geo-scale=%s,%s', '--geo-rotate=%s,%s,%s,%s,%s', '--geo-translate=%s,%s,%s,%s,%s', '--load=%s']
+         '--geo-scale=%s,%s', '--geo-rotate=%s,%s,%s,%s,%s', '--geo-translate=%s,%s,%s,%s,%s', '--load=%s',
+         '--output-basic-input=%p', '--output-cmdline=%p', '--output-basic-input=%p', '--output-cmdline=%p', '-T', '--timing',
+         '--f-inc=%s', '--n-f=%s', '-l %s', '--insulation-load=%s,%s,%s', '--skin-effect-conductivity=%s,%s',
+         '--skin-effect-resistivity=%s,%s', '--mininec-version=12', '--mininec-version=13', '--option=near-field-e',
+         '--option=far-field', '--option=%s', '--boundary=%s', '--laplace-load-a=%s,%s,%s,%s,%s', '--laplace-load-b=%s,%s,%s,%s,%s']
 
 # minimised past failures: run first
 CORPUS = [
@@ -93,6 +110,7 @@ def gen(rng):
         argv.append(a)
     for _ in range(rng.choice([0, 1, 1, 2])):
         t = rng.choice(EXTRA)
+        t = t.replace('%p', rng.choice(OUTPATHS))
         n = t.count('%s')
         vals = tuple(rng.choice(SPECIAL + INTS + ['1', '2', '5', '0.1', '10']) for _ in range(n))
         s = t % vals
@@ -142,6 +160,9 @@ def outcome(argv, limit=20):
         if r['rc'] != 23:
             return 'crash', 'return value %r' % r['rc']
         msg = (r['err'] + r['out']).strip()
+        if '-T' in argv or '--timing' in argv:
+            # the timing lines the user asked for are not part of the diagnostic
+            msg = '\n'.join(l for l in msg.split('\n') if not l.startswith('Time ')).strip()
         if msg.count('\n') > 0:
             return 'diag-multiline', msg[:120]
         return 'diag', msg[:120]
